@@ -6,7 +6,17 @@ V = os.path.dirname(os.path.dirname(os.path.abspath(__file__)))
 A1 = ('Assumes A1 (f64 arithmetic exact on the extended reals: no rounding, no overflow; IEEE rules for NaN/inf), the extraction rules of '
       'DESIGN 3.2 (vx/core.py), Verus+Z3, and the assumed std/dependency contracts listed in evidence.coverage.trusted_base. ')
 
+BOUNDED = (' In addition every run executes a BOUNDED STAND-IN (./bin/rx bounded <id>, rx/src/bounded*.rs): executable forms of the contracts run on the real compiled code over a fixed finite input family - '
+           'labelled bounded in the evidence (coverage.bounded_stand_in) and NEVER counted as proved. It supplies a failing input for a failed obligation, covers callees whose contracts are only assumed, and is the only verdict '
+           'when a changed tree leaves the verifier dialect (deductive route UNDECIDED: lost anchor / tool limit).')
+
 CLAIMS = {
+    'C02': dict(
+        text='Deductive proof (Verus) of the real text of the operator DISPATCH layer and the map-free leaves: Add for Function and Mul for Function (all 16 operand-kind pairs: result holds a kind able to carry every term, ids within the operands\' ids, value = sum / product of the operand polynomials minus an explicit epsilon-drop remainder defined per arm), '
+             'Add<f64>/Mul<f64> for Linear, Add<f64>/Mul<f64> for Quadratic, Mul<f64> for Polynomial (exact, remainder 0, including the `* 0` short cut), Zero::zero/is_zero and the From conversions into Function.',
+        note=A1 + 'PARTIAL: the BTreeMap-merge leaves (Linear+Linear, Linear*Linear, Quadratic/Polynomial sums and products, Linear::new) are ASSUMED contracts with an uninterpreted epsilon-drop remainder; the macro-generated impls (impl_add_from / inverse / sub_by_neg_add / mul_from / neg_by_mul, Parameter and DecisionVariable operands) and the term iterators are covered only by the bounded stand-in.',
+        technique='contract-based deductive verification (Verus) of mechanically extracted Rust functions; value contracts with explicit remainders; contracts generated from a table of operand kinds',
+        ref='DESIGN 6 C02'),
     'C16': dict(
         text='Deductive proof (Verus, unbounded, all inputs) that every function of bound.rs extracted from the working tree satisfies its contract: '
              'type invariant wf preserved, no unwrap() panics, and the enclosure postconditions forall x in a, y in b: x+y in a+b, x*y in a*b, '
@@ -98,12 +108,12 @@ CLAIMS = {
     'C17': dict(
         text='Deductive proof (Verus) of the real text of the table->instance conversion kernels of mps/convert.rs: get_dvar_bound (default [0,+inf); LO -> [l,+inf); UP -> [0,u], only a NEGATIVE UP opens the lower bound; both -> [l,u]), get_dvar_kind, convert_sense, '
              'convert_inequality (E/L rows a.x-b, G rows -a.x+b, equality kinds, every coefficient) and convert_objective (terms of the objective row, constant = -RHS of the FILE\'s objective row).',
-        note=A1 + 'ONLY the conversion kernels are claimed. NOT covered: the line-oriented text layer (sections, markers, bound keywords FR/MI/PL/BV/LI/UI, RANGES, numbers, OBJSENSE, gzip, error reporting) and convert_dvars/convert_constraints (hash iteration, id recovery). RowName/ColumnName are opaque names with an assumed key model. Defects D5a and D5c found and repaired in /repo; D5b/D5d lie in the uncovered part (DESIGN 7).',
+        note=A1 + 'ONLY the conversion kernels are PROVED. The line-oriented text layer (sections, markers, bound keywords FR/MI/PL/BV/LI/UI, RANGES, numbers, OBJSENSE, gzip, error reporting) and convert_dvars/convert_constraints (hash iteration, id recovery) are outside the verifier dialect (str/fmt) and covered only by the bounded stand-in (151 rendered MPS texts through the public loader). RowName/ColumnName are opaque names with an assumed key model. Defects D5a, D5c (deductive) and D5b, D5d (bounded stand-in, text layer) found and repaired in /repo.',
         technique='contract-based deductive verification (Verus) of mechanically extracted Rust functions',
         ref='DESIGN 6 C17'),
     'C19': dict(
         text='Deductive proof (Verus) of the real text of the conversion kernels of qplib/convert.rs: to_quadratic (one COO entry per listed lower-triangle entry, each exactly once in any HashMap order, off-diagonal v, DIAGONAL v/2, so that the entries sum to 1/2 x\'Qx), wrap_function (value = quadratic entries + linear terms + constant for every assignment) and convert_sense.',
-        note=A1 + 'ONLY these kernels are claimed. NOT covered: the section-by-section text reader, convert_objective default-b0 expansion, convert_constraints (two-sided split), to_linear, apply_infinity_threshold, convert_dvars. ASSUMED: Quadratic::is_zero. Defect D6 (diagonal not halved) found by this check and repaired in /repo.',
+        note=A1 + 'ONLY these kernels are PROVED. The section-by-section text reader, convert_objective default-b0 expansion, convert_constraints (two-sided split), to_linear, apply_infinity_threshold, convert_dvars are covered only by the bounded stand-in (every problem-type code, 240 rendered QPLIB texts through the public loader). ASSUMED: Quadratic::is_zero. Defect D6 (diagonal not halved) found by this check and repaired in /repo.',
         technique='contract-based deductive verification (Verus) of mechanically extracted Rust functions',
         ref='DESIGN 6 C19'),
 }
@@ -129,7 +139,7 @@ def main():
                 replay_cmd_template='./bin/check %s --replay {path}' % pid,
                 engine='vx',
                 level_claimed=dict(category='proof', text=c['text'], design_ref=c['ref']),
-                level_note=c['note'],
+                level_note=c['note'] + BOUNDED,
                 technique=c['technique']))
     na = []
     for pid in props:
@@ -142,9 +152,11 @@ def main():
                    baseline_off_cmd='cd /repo && cargo test --workspace --no-fail-fast --offline',
                    source_commits=[], add_only=True),
         engines=[dict(name='vx', path='/verif/vx', serves_properties=sorted(CLAIMS),
-                      kind_free_text='Verus (deductive, SMT) on functions extracted mechanically from /repo on every run, with contracts from vx/props/*.py')],
+                      kind_free_text='Verus (deductive, SMT) on functions extracted mechanically from /repo on every run, with contracts from vx/props/*.py'),
+                 dict(name='rx', path='/verif/rx', serves_properties=sorted(CLAIMS),
+                      kind_free_text='bounded stand-in and replay crate: links the real ommx crate of the working tree (path dependency), runs executable contracts over fixed finite input families (./bin/rx bounded <id>) and the defect demonstrations (./bin/rx demo <Dn>); never counted as proof')],
         checks=checks,
-        notes='exit 0 held / exit 1 VIOLATION / exit 2 undecided (lost anchor, tool limit, rlimit): never an alarm. Known findings in /verif/known_findings.txt.',
+        notes='exit 0 held / exit 1 VIOLATION / exit 2 undecided (broken check, tool failure with no bounded family): never an alarm. When the deductive route is undecided on a changed tree (lost anchor, tool limit, rlimit) the verdict is that of the bounded stand-in, printed as BOUNDED-STAND-IN ... (exit 0, evidence level exploration) or VIOLATION with the failing input. Known findings in /verif/known_findings.txt.',
         not_applicable=na)
     json.dump(m, open(os.path.join(V, 'MANIFEST.json'), 'w'), indent=1)
     print('claimed:', sorted(CLAIMS), 'not_applicable:', [x['property_id'] for x in na])
